@@ -2,6 +2,7 @@ import Lean.Data.Json
 import SpoxModel.Model.Tensor
 import SpoxModel.Model.Attr
 import SpoxModel.Model.Embed
+import SpoxModel.Model.AttrRef
 import SpoxModel.Generated.Capture
 /-! Line-protocol handler for C10: run `fromArray` / `toArray` / `construct` / the heap model on the
     request and report everything (the harness compares with the real code, field by field). -/
@@ -179,6 +180,36 @@ def handleE (req : Json) : Except String Json := do
         ("in_domain", toJson (inDomain c v)), ("right_kind", toJson (rightKind c v))]
     | .error e => return Json.mkObj [("err", e.name), ("in_domain", toJson (inDomain c v)),
         ("right_kind", toJson (rightKind c v))]
+  | "ref" =>
+    -- a chain of `AttrX(_Ref(prev, outer, rname), name)` over a concrete root
+    let rj ← req.getObjVal? "root"
+    let rcn ← rj.getObjValAs? String "cls"
+    let some rc := Cls.ofName? rcn | throw s!"bad class {rcn}"
+    let rv ← parseVal (← rj.getObjVal? "val")
+    if !(inDomain rc rv) then return Json.mkObj [("in_domain", toJson false)]
+    match AttrRef.mk q rc (← rj.getObjValAs? String "name") rv with
+    | .error e => return Json.mkObj [("root_err", e.name)]
+    | .ok root =>
+      let chain ← (← req.getObjValAs? (Array Json) "chain").toList.mapM fun (cj : Json) => do
+        let cn ← cj.getObjValAs? String "cls"
+        let some c := Cls.ofName? cn | throw s!"bad class {cn}"
+        return (c, ← cj.getObjValAs? String "name", ← cj.getObjValAs? String "outer", ← cj.getObjValAs? String "rname")
+      let rec go (cur : AttrRef.A) (i : Nat) : List (Cls × String × String × String) → Except (Nat × Err) AttrRef.A
+        | [] => .ok cur
+        | (c, n, o, r) :: rest =>
+          match AttrRef.constructRef q c n cur o r with
+          | .ok a => go a (i + 1) rest
+          | .error e => .error (i, e)
+      match go root 0 chain with
+      | .error (i, e) => return Json.mkObj [("err", e.name), ("at", toJson i)]
+      | .ok a =>
+        let rp := a.toOnnx
+        let d := match AttrRef.deref q a with
+          | .ok (.conc _ _ sv p) => Json.mkObj [("ok", aprotoJson p), ("stored_len", storedLen sv)]
+          | .ok _ => Json.mkObj [("err", "other")]
+          | .error e => Json.mkObj [("err", e.name)]
+        return Json.mkObj [("name", rp.name), ("ref", match rp.refAttrName with | some x => toJson x | none => Json.null),
+          ("type", toJson rp.type), ("depth", toJson a.depth), ("deref", d)]
   | "capture" =>
     let mode ← parseMode (← req.getObjValAs? String "mode")
     let kind ← req.getObjValAs? String "kind"
